@@ -42,7 +42,7 @@ def Fields.setMany (r : Fields) : List (Nat × Val) → Fields
   | [] => r
   | (k, v) :: rest => Fields.setMany (Fields.set r k v) rest
 
-structure Row where
+@[ext] structure Row where
   alive : Bool
   f : Fields
 
@@ -135,12 +135,16 @@ structure Shared where
 
 def Shared.vis (s : Shared) : Row := s.work.getD s.db
 
+/-- membership in a literal list of values (kept as a named function so that proofs can treat
+    a guard as one opaque test) -/
+def memVals (vs : List Val) (v : Val) : Bool := vs.contains v
+
 def Cond.eval (l : Local) : Cond → Bool
   | .tt => true
   | .flag i => l.flags i
   | .notFlag i => !(l.flags i)
-  | .isIn e vs => vs.contains (e.eval l.vars l.obj)
-  | .notIn e vs => !(vs.contains (e.eval l.vars l.obj))
+  | .isIn e vs => memVals vs (e.eval l.vars l.obj)
+  | .notIn e vs => !(memVals vs (e.eval l.vars l.obj))
   | .truthy e => (e.eval l.vars l.obj).truthy
 
 def setFlagOf (fl : Nat → Bool) (i : Nat) (b : Bool) : Nat → Bool := fun j => if j = i then b else fl j
